@@ -21,6 +21,45 @@ PROPS = {
         "assumptions": ["WrapFrame (wrapper keeps token vector, changes only blanks of contents) - checked per case (wc=1)",
                         "token contents have no dangling E3 byte (consequence of valid UTF-8; checked per case, nd=1)"],
     },
+    "C04": {
+        "level": "other",
+        "lean": ["PasfmtModel.Props.C04"],
+        "streams": [
+            {"stream": "fmt", "families": "soup,bytes,mutate,directives,seeds_sample,layout", "quick": 4000, "thorough": 80000,
+             "binding": ["*"], "args": {"oracles": "c15", "timeout_ms": 20000}},
+            {"stream": "parse", "families": "soup,bytes,mutate,directives,layout", "quick": 3000, "thorough": 40000, "name": "counters"},
+            {"stream": "fmt", "name": "enum", "families": "soup_enum", "quick": 3000, "thorough": 1010100, "multi_seed": False,
+             "binding": ["*"], "args": {"timeout_ms": 20000}},
+        ],
+        "oracle_prefixes": ["c04", "c15: PANIC"],
+        "abnormal_binding": True,
+        "explanation": "Monitor + theorems. Theorems: the number of conditional-directive passes is linear in the token count "
+                       "(passes_linear), token lengths sum to the input length, line-builder references stay valid for every control "
+                       "flow; every model function is total. Monitor: every case runs under catch_unwind with a 20 s hang detector "
+                       "(two orders of magnitude above the slowest legitimate case), debug build (overflow and bounds checks on); "
+                       "deterministic work counters (passes, primitive operations) are compared with linear bounds; token sequences "
+                       "over a 116-token alphabet are enumerated (all of length <= 3 in thorough).",
+        "assumptions": ["parser control flow and the wrapper's search are not modelled: their termination is monitored, not proved",
+                        "stack depth is not a notion of the model (known finding F2)"],
+    },
+    "C14": {
+        "level": "proof",
+        "lean": ["PasfmtModel.Props.C14"],
+        "streams": [
+            {"stream": "parse", "families": ALL_FAMILIES + ",directives", "quick": 4000, "thorough": 60000},
+        ],
+        "oracle_prefixes": ["c14"],
+        "abnormal_binding": False,
+        "explanation": "For every control flow (operation trace accepted by the primitive machine): lines list pass tokens in strictly "
+                       "increasing order, disjointly, and every pass token is in a line or explicitly skipped; consolidation keeps "
+                       "every non-empty line's tokens; every conditional directive and unattributed compiler directive gets its own "
+                       "line; one pass = the whole file when there are no conditional directives. The machine, the directive passes "
+                       "and the consolidation are replayed against the real parser's hook trace and output on every case; the C14 "
+                       "predicate is also evaluated directly on the parser's output.",
+        "assumptions": ["parent/level/type of lines are taken from the trace (control flow); the parent and end-of-file clauses are "
+                        "checked by the direct oracle on well-formed inputs, not proved",
+                        "with conditional directives, that every non-directive token is in some pass is checked differentially (model passes = real passes) and by the oracle"],
+    },
     "C07": {
         "level": "proof",
         "lean": ["PasfmtModel.Props.C07"],
